@@ -432,6 +432,11 @@ func optimizeFastEvaluation(cc *Config, root *astNode) {
 	if (n.flag&nodeTypeMask) != operator || len(root.children) != 2 {
 		return
 	}
+	// and/or stay on the short-circuit path: the fast path evaluates (and type-checks)
+	// both operands, also the one that left-to-right evaluation never looks at
+	if isBoolOpNode(n) {
+		return
+	}
 
 	for _, child := range root.children {
 		typ := child.node.getNodeType()
